@@ -200,14 +200,27 @@ pub enum WorkerReply {
 impl Worker {
     pub fn spawn(prop: &str) -> Worker {
         let exe = std::env::current_exe().expect("current_exe");
-        let mut child = Command::new(exe)
-            .arg("worker")
-            .arg(prop)
-            .stdin(Stdio::piped())
-            .stdout(Stdio::piped())
-            .stderr(Stdio::inherit())
-            .spawn()
-            .expect("spawn worker");
+        // spawning can fail transiently (EAGAIN under load): retry before giving up
+        let mut tries = 0;
+        let mut child = loop {
+            match Command::new(&exe)
+                .arg("worker")
+                .arg(prop)
+                .stdin(Stdio::piped())
+                .stdout(Stdio::piped())
+                .stderr(Stdio::inherit())
+                .spawn()
+            {
+                Ok(c) => break c,
+                Err(e) => {
+                    tries += 1;
+                    if tries > 120 {
+                        panic!("cannot spawn worker: {e}");
+                    }
+                    std::thread::sleep(Duration::from_millis(500));
+                }
+            }
+        };
         let stdin = child.stdin.take().unwrap();
         let stdout = child.stdout.take().unwrap();
         let (tx, rx) = mpsc::channel();
@@ -404,6 +417,8 @@ pub fn truncate_value(v: &Value, max: usize) -> Value {
 
 // ---------------------------------------------------------------------------------------------
 // the check driver
+
+static ENGINE_THREAD_PANICS: AtomicUsize = AtomicUsize::new(0);
 
 pub struct Violation {
     pub case: Value,
@@ -686,7 +701,9 @@ pub fn run_check(prop: Arc<dyn Property>, tier: Tier) -> i32 {
             }));
         }
         for h in handles {
-            let _ = h.join();
+            if h.join().is_err() {
+                ENGINE_THREAD_PANICS.fetch_add(1, Ordering::Relaxed);
+            }
         }
         for (s, v) in Arc::try_unwrap(results).ok().unwrap().into_inner().unwrap() {
             total.merge(s);
@@ -769,7 +786,9 @@ pub fn run_check(prop: Arc<dyn Property>, tier: Tier) -> i32 {
             }));
         }
         for h in handles {
-            let _ = h.join();
+            if h.join().is_err() {
+                ENGINE_THREAD_PANICS.fetch_add(1, Ordering::Relaxed);
+            }
         }
         for (s, v) in Arc::try_unwrap(results).ok().unwrap().into_inner().unwrap() {
             total.merge(s);
@@ -870,6 +889,11 @@ pub fn run_check(prop: Arc<dyn Property>, tier: Tier) -> i32 {
         wall
     );
     if exit == 0 {
+        let tp = ENGINE_THREAD_PANICS.load(Ordering::Relaxed);
+        if tp > 0 {
+            eprintln!("[{id}] {tp} engine thread(s) panicked (harness problem): cannot decide");
+            return 2;
+        }
         if total.evaluations > 0 && total.inconclusive * 50 > total.evaluations {
             eprintln!("[{id}] too many inconclusive cases (>2%): cannot decide");
             return 2;
